@@ -182,6 +182,13 @@ class StateSetter:
     def post_same_state_is_noop(self, new_state, old):
         return implies(old.self._state == new_state, no_effect())
 
+    def post_local_entry_kept(self, old):
+        """the StateModes object of the LOCAL instance is never replaced (only a STOPPED / ISOLATED peer gets a fresh
+        one): callers state their frames on it"""
+        sv = self.supvisors
+        lid = sv.mapper.local_identifier
+        return sv.state_modes.instance_state_modes[lid] is old.self.supvisors.state_modes.instance_state_modes[lid]
+
     def exc_InvalidTransition_refused(self, new_state, old):
         return (old.self._state != new_state and not graph(old.self._state, new_state)
                 and self._state == old.self._state and no_effect())
@@ -300,10 +307,17 @@ class OnTimerEvent:
     def post_still_valid(self):
         return valid_structure(self.supvisors) and distinct_entries(self.supvisors)
 
-    def loop0_inv(self, seen, sequence_counter, event, old):
+    def loop0_inv(self, seen, sequence_counter, event, old, loop_old):
         sv = self.supvisors
+        lid = sv.mapper.local_identifier
+        entry_sms = loop_old.self.supvisors.state_modes
         return (sv.context is self and valid_structure(sv) and distinct_entries(sv)
                 and sequence_counter == event['sequence_counter']
+                # the StateModes object of the local instance and its instance_states map are never replaced (only a
+                # STOPPED / ISOLATED *peer* gets a fresh StateModes): the loop frame is stated on these objects
+                and sv.state_modes.instance_state_modes[lid] is entry_sms.instance_state_modes[lid]
+                and sv.state_modes.instance_state_modes[lid].instance_states
+                is entry_sms.instance_state_modes[lid].instance_states
                 and forall(str, lambda i: implies(
                     i in self.instances,
                     self.instances[i]._state == timer_state(old.self.instances[i]._state, i in seen, sequence_counter,
